@@ -52,15 +52,46 @@ done:
 	return ret;
 }
 
+static char *get_current_dir(void)
+{
+	size_t size = 256;
+	char *buf;
+
+	for (;;) {
+		buf = malloc(size);
+		if (buf == NULL)
+			return NULL;
+
+		if (getcwd(buf, size) != NULL)
+			return buf;
+
+		free(buf);
+		if (errno != ERANGE)
+			return NULL;
+
+		size *= 2;
+	}
+}
+
 static int pack_files(sqfs_block_processor_t *data, fstree_t *fs,
 		      options_t *opt)
 {
+	char *oldcwd = NULL;
 	tree_node_t *node;
-	int ret;
+	int ret = 0;
 
-	if (opt->packdir != NULL && chdir(opt->packdir) != 0) {
-		perror(opt->packdir);
-		return -1;
+	if (opt->packdir != NULL) {
+		oldcwd = get_current_dir();
+		if (oldcwd == NULL) {
+			perror("getting current directory");
+			return -1;
+		}
+
+		if (chdir(opt->packdir) != 0) {
+			perror(opt->packdir);
+			free(oldcwd);
+			return -1;
+		}
 	}
 
 	for (node = fs->files; node != NULL; node = node->next_by_type) {
@@ -71,7 +102,8 @@ static int pack_files(sqfs_block_processor_t *data, fstree_t *fs,
 			node_path = fstree_get_path(node);
 			if (node_path == NULL) {
 				perror("reconstructing file path");
-				return -1;
+				ret = -1;
+				break;
 			}
 
 			ret = canonicalize_name(node_path);
@@ -86,11 +118,22 @@ static int pack_files(sqfs_block_processor_t *data, fstree_t *fs,
 		ret = pack_file(data, path, node, opt);
 		free(node_path);
 
-		if (ret)
-			return -1;
+		if (ret) {
+			ret = -1;
+			break;
+		}
 	}
 
-	return 0;
+	/* the name of the output file may be relative to where we started */
+	if (oldcwd != NULL) {
+		if (chdir(oldcwd) != 0) {
+			perror(oldcwd);
+			ret = -1;
+		}
+		free(oldcwd);
+	}
+
+	return ret;
 }
 
 int main(int argc, char **argv)
